@@ -1194,6 +1194,26 @@ class Exec:
                 return all(self.is_nonneg(c) for c in t.children())
         return False
 
+    @staticmethod
+    def nth_of(seq, j):
+        """element j of a sequence; for a sequence that is literally unit ++ unit ++ ... and a numeral j the
+        element itself (z3 5.1's simplifier mis-rewrites  nth (unit (ite ..) ++ rest) 1  into
+        nth_i (unit ..) 1,  dropping `rest`: an unspecified value instead of the element)"""
+        if z3.is_int_value(j):
+            parts = []
+
+            def flat(t):
+                if z3.is_app(t) and t.decl().kind() == z3.Z3_OP_SEQ_CONCAT:
+                    for c in t.children():
+                        flat(c)
+                else:
+                    parts.append(t)
+            flat(seq)
+            k = j.as_long()
+            if 0 <= k < len(parts) and all(z3.is_app(p) and p.decl().kind() == z3.Z3_OP_SEQ_UNIT for p in parts[:k + 1]):
+                return parts[k].arg(0)
+        return seq[j]
+
     def index_of(self, v, idx, node):
         self.safe(is_int(idx), 'TypeError', 'index type', node)
         i = vl.simp(get_i(idx))
@@ -1219,7 +1239,7 @@ class Exec:
         self.safe(z3.And(j >= 0, j < n), 'IndexError', 'index in range', node)
         if kind == 'str':
             return VStr(z3.SubString(seq, j, 1))
-        return seq[j]
+        return self.nth_of(seq, j)
 
     def slice_of(self, v, sl, node):
         if sl.step is not None:
@@ -1488,7 +1508,7 @@ class Exec:
                     seq = z3.If(is_tuple(v), get_items(v), z3.If(tok, get_fields(v), get_elems(v)))
             self.safe(z3.Length(seq) == n, 'ValueError', 'unpack arity %d' % n, node)
             for i, t in enumerate(tgt.elts):
-                self.bind_target(t, V(seq[i]), node)
+                self.bind_target(t, V(self.nth_of(seq, z3.IntVal(i))), node)
             return
         raise Unsupported('assignment target %s' % type(tgt).__name__)
 
